@@ -48,9 +48,9 @@ func (i *IPv4) Len() (n uint16) {
 		i.IHL = 5
 	}
 	if i.Data != nil {
-		return uint16(i.IHL*4) + i.Data.Len()
+		return uint16(i.IHL)*4 + i.Data.Len()
 	}
-	return uint16(i.IHL * 4)
+	return uint16(i.IHL) * 4
 }
 
 func (i *IPv4) MarshalBinary() (data []byte, err error) {
